@@ -108,6 +108,7 @@ type c15bWorld struct {
 	pending          [][2]int
 	sigKick          chan struct{}
 	bmu              sync.Mutex
+	connAtt          map[string]*c15Attempt // connection task -> the attempt it serves
 	firstSpawn       bool
 }
 
@@ -265,6 +266,8 @@ func (e *c15bEnv) Serve(l net.Listener, handler http.Handler) error {
 	if pw.parentCk != "" {
 		pw.probeCookies(p)
 	}
+	// like net/http: Serve returns as soon as a shutdown *begins*; it is
+	// Shutdown that waits for the requests in flight
 	select {
 	case <-p.serveDone:
 	case <-p.deadCh:
@@ -281,6 +284,7 @@ func (e *c15bEnv) Shutdown(ctx context.Context) error {
 	if !p.stopping {
 		p.stopping, p.ready = true, false
 		w.Logf("process %d stops accepting (in flight: %d)", p.pid, p.inflight)
+		p.serveOnce.Do(func() { close(p.serveDone) })
 		pw.broadcast()
 	}
 	// (several goroutines of the process may shut it down at the same time - a
@@ -291,7 +295,6 @@ func (e *c15bEnv) Shutdown(ctx context.Context) error {
 		w.Yield("proc-drain")
 		pw.gone(p)
 	}
-	p.serveOnce.Do(func() { close(p.serveDone) })
 	return nil
 }
 
@@ -421,6 +424,12 @@ func (pw *c15bWorld) procMain(p *c15bProc, stdin io.Reader) {
 	// the worker command itself
 	p.runErr = workercmd.ZZRunWorker("tok")
 	pw.gone(p)
+	if p.inflight > 0 {
+		// the worker command returns, i.e. the process exits on its own accord,
+		// while requests it had accepted are still being served: their outcomes
+		// (a signature, a key-usage error) are lost to the callers
+		pw.findings = append(pw.findings, fmt.Sprintf("process %d ended its own run (%v) with %d accepted request(s) still in flight: their outcomes never reach the callers", p.pid, p.runErr, p.inflight))
+	}
 	if p.runErr != nil {
 		pw.die(p, fmt.Sprintf("exit with error: %v", p.runErr))
 	} else {
@@ -572,6 +581,7 @@ func (pw *c15bWorld) RoundTrip(req *http.Request) (*http.Response, error) {
 	done := make(chan struct{})
 	p.inflight++
 	p.served++
+	pw.connAtt[conn] = att
 	w.Sched.Go(conn, func() {
 		defer func() {
 			p.inflight--
@@ -699,7 +709,7 @@ func c15bRun(r *core.Run) {
 		must(cfg.Normalize(""))
 		world.Bind(w)
 		shared.CurrentConfig = cfg
-		pw = &c15bWorld{w: w, r: r, cfg: cfg, procs: map[int]*c15bProc{}, nextPid: 1000, kick: make(chan struct{}), cur: map[string]*c15Op{}, firstSpawn: true, sigKick: make(chan struct{}, 1)}
+		pw = &c15bWorld{w: w, r: r, cfg: cfg, procs: map[int]*c15bProc{}, nextPid: 1000, kick: make(chan struct{}), cur: map[string]*c15Op{}, connAtt: map[string]*c15Attempt{}, firstSpawn: true, sigKick: make(chan struct{}, 1)}
 		w.Sched.Go("signals", pw.signalTask)
 		simhook.SetProcEnv(pw.envOf)
 		token.Openers[c15bTokenType] = func(conf *config.Config, tokenName string, prompt passprompt.PasswordGetter) (token.Token, error) {
@@ -728,6 +738,10 @@ func c15bRun(r *core.Run) {
 			pw.armed = pw.armed[1:]
 			if op == "ping" && k == "usage" {
 				k = "error" // a ping names no key: a key-usage error cannot arise
+			}
+			// which request met the fault (the handler runs in the connection's task)
+			if att := pw.connAtt[w.Sched.Current()]; att != nil && !att.Consumed {
+				att.Backend, att.Consumed = k+"@"+op, true
 			}
 			r.Fault("backend-" + k)
 			if k == "slow" {
@@ -762,7 +776,7 @@ func c15bRun(r *core.Run) {
 						live = append(live, p)
 					}
 				}
-				switch a := core.Pick(w.T, "chaos", "kill9", "kill9", "sigterm", "be-pkcs11-fatal", "be-retryable", "be-hang", "be-slow", "be-error", "be-usage"); {
+				switch a := core.Pick(w.T, "chaos", "kill9", "kill9", "sigterm", "be-pkcs11-fatal", "be-pkcs11-fatal", "be-retryable", "be-hang", "be-slow", "be-error", "be-usage", "be-notimpl", "be-pkcs11-user"); {
 				case a == "kill9" || a == "sigterm":
 					if len(live) == 0 {
 						continue
@@ -858,6 +872,10 @@ func c15bRun(r *core.Run) {
 	sort.Strings(pw.findings)
 	for _, f := range pw.findings {
 		key := "refusal"
+		if strings.Contains(f, "still in flight") {
+			r.Failf("C15.inflight-dropped-by-exiting-worker", "graceful-exit", "%s", f)
+			continue
+		}
 		if strings.Contains(f, "refused the parent's own request") {
 			key = "parent-refused"
 		} else if strings.Contains(f, "unexpected command line") {
